@@ -78,6 +78,23 @@ int main(int argc, char **argv) {
   items.insert(items.begin(), Item{"regs-from-reset", "BR start\nDATA 1000\nstart\nBRZ za\nBR bad\nza\nOPR ADD\nBRZ zb\nBR bad\nzb\nOPR SUB\nBRN bad\nBRZ good\nbad\nLDAC 9\nLDBM 1\nSTAI 2\nLDAC 0\nOPR SVC\ngood\nLDAC 4\nLDBM 1\nSTAI 2\nLDAC 0\nOPR SVC\n", true, {""}});
   // stores into the word that is being executed, then runs on into the modified bytes (word 3 = LDAM 2; STAM 3; LDAC 7; LDBM 1 is overwritten by word 2 = same with LDAC 9)
   items.insert(items.begin(), Item{"self-modifying", "BR start\nDATA 1000\nDATA 288957186\nstart\nLDAM 2\nSTAM 3\nLDAC 7\nLDBM 1\nSTAI 2\nLDAC 0\nOPR SVC\n", true, {""}});
+  // system-call sequences: every sequence of <=2 (thorough: <=3) items over {write x1..x3 back to back, read x1..x3 back to back, copy the last read byte into the character slot,
+  // write with one instruction between the SVCs}; back-to-back SVCs keep the syscall strobe high on consecutive clocks
+  {
+    std::vector<std::string> it = {"LDAC 1\nOPR SVC\n", "LDAC 1\nOPR SVC\nOPR SVC\n", "LDAC 1\nOPR SVC\nOPR SVC\nOPR SVC\n", "LDAC 2\nOPR SVC\n", "LDAC 2\nOPR SVC\nOPR SVC\n", "LDAC 2\nOPR SVC\nOPR SVC\nOPR SVC\n",
+                                   "LDAM 1\nLDAI 1\nLDBM 1\nSTAI 2\n", "LDAC 1\nOPR SVC\nLDAC 1\nOPR SVC\n"};
+    int maxLen = th ? 3 : 2;
+    std::vector<std::vector<int>> seqs = {{}};
+    size_t from = 0;
+    for (int L = 1; L <= maxLen; L++) { size_t to = seqs.size(); for (size_t k = from; k < to; k++) for (int a = 0; a < (int)it.size(); a++) { auto q = seqs[k]; q.push_back(a); seqs.push_back(q); } from = to; }
+    for (auto &q : seqs) {
+      // sp = 1000; sp[2] = 'a' (character / exit value slot), sp[3] = 0 (stream); exit with the character slot as the exit value
+      std::string src = "BR start\nDATA 1000\nstart\nLDAC 97\nLDBM 1\nSTAI 2\nLDAC 0\nLDBM 1\nSTAI 3\n";
+      for (int a : q) src += it[a];
+      src += "LDAC 0\nOPR SVC\nOPR SVC\n";
+      items.insert(items.begin(), Item{"syscall-sequences", src, true, {"", "xyz", std::string("\x80\x00z", 3)}});
+    }
+  }
   size_t shipped = items.size();
   uint64_t want = th ? 120000 : 6000;
   // the hand-parametrised families (scoping, recursion, strings, names, output streams, large frames, long bodies) completely
